@@ -69,6 +69,13 @@ def classify(b, vr):
             continue
         pl = prim[0]['line_start']
         fn = b.fn_at(pl)
+        if fn is None:
+            # the primary span can sit in the prelude (e.g. the `requires false` of the panic path of debug_assert!): the call site decides
+            for sp in spans:
+                g = b.fn_at(sp['line_start'])
+                if g is not None:
+                    fn, pl = g, sp['line_start']
+                    break
         rec = dict(message=msg, mirror_line=pl, fn=(fn['key'] if fn else None), instance=(fn['instance'] if fn else None),
                    rendered=d.get('rendered', ''), spans=[])
         tags = None
